@@ -1938,7 +1938,7 @@ class state_multiple_service( state ):
                     # Unparsable.  Keep its place with nothing but the service code; it is answered
                     # with an error (see Message_Router.request), and its neighbours are unaffected.
                     log.normal( "%s Multiple Service Packet request %d failed to parse: %s", target, oi, exc )
-                    req		= dotdict( input=reqdata[beg:end] )
+                    req		= dotdict( input=reqdata[beg:end], path=dotdict( segment=[] ))
                     if len( req.input ):
                         req.service= bytearray( req.input[:1] )[0] & 0x7F
                 request.append( req )
@@ -2342,18 +2342,30 @@ class Connection_Manager( Object ):
             where		= "at %d total bytes:\n%s\n%s (byte %d)" % (
                 processed, repr(memory+future), '-' * (len(repr(memory))-1) + '^', pos )
             log.error( "EtherNet/IP CIP error %s\n", where )
-            if ( target is None or not len( data.request.get( 'input', b'' ))
+            # The request's path couldn't be parsed, or its target Object couldn't parse or didn't
+            # recognize the request (eg. an unsupported service).  Answer it alone with an error status,
+            # exactly as the same request is answered within a Multiple Service Packet (see
+            # state_multiple_service and Message_Router.request): the Message Router is given what is
+            # known of it (its service code; no path), and if it cannot produce a reply for that either,
+            # the reply is Service not supported.
+            answerer		= lookup( Message_Router.class_id, 1 ) or target
+            if ( answerer is None or not len( data.request.get( 'input', b'' ))
                  or not isinstance( sys.exc_info()[1], Exception )):
                 raise
-            # The target Object couldn't parse, or didn't recognize the request (eg. an unsupported
-            # service).  Answer it alone with an error status, exactly as the same request is answered
-            # within a Multiple Service Packet (see state_multiple_service and Message_Router.request):
-            # the target is given what is known of it (its service code), and if it cannot produce a
-            # reply for that either, the reply is Service not supported.
             req			= dotdict( input=data.request.input )
-            req.service		= bytearray( req.input[:1] )[0] & 0x7F
             try:
-                target.request( req, addr=addr )
+                source		= rememberable( req.input )
+                with answerer.parser as machine:
+                    with contextlib.closing( machine.run( source=source, data=req )) as engine:
+                        for m,s in engine:
+                            pass
+                    assert machine.terminal, \
+                        "%s: Failed to parse request" % ( machine.name_centered() )
+            except Exception as exc:
+                req		= dotdict( input=data.request.input, path=dotdict( segment=[] ))
+                req.service	= bytearray( req.input[:1] )[0] & 0x7F
+            try:
+                answerer.request( req, addr=addr )
             except Exception as exc:
                 req.pop( Message_Router.SV_COD_CTX, None )
                 req.pop( 'status_ext', None )
